@@ -698,6 +698,24 @@ fn gen_ext_task(rng: &mut Rng, origin: String) -> ExtTask {
     ExtTask { origin, spec, program, ug, po: fol::Specification { formulas: po } }
 }
 
+/// Writes `n` generated external-equivalence tasks (and strong-equivalence program pairs) as
+/// directories of files in anthem's concrete syntax, for explorations that drive the CLI.
+pub fn dump_ext(seed: u64, n: usize, out: &Path) {
+    let mut rng = Rng::new(seed ^ 0xd0_0d);
+    for k in 0..n {
+        let t = gen_ext_task(&mut rng, format!("dump#{k}"));
+        let d = out.join(format!("ext{k}"));
+        std::fs::create_dir_all(&d).unwrap();
+        match &t.spec {
+            either::Either::Left(p) => std::fs::write(d.join("a_left.lp"), format!("{p}")).unwrap(),
+            either::Either::Right(sp) => std::fs::write(d.join("a_left.spec"), format!("{sp}")).unwrap(),
+        }
+        std::fs::write(d.join("b_right.lp"), format!("{}", t.program)).unwrap();
+        std::fs::write(d.join("c.ug"), format!("{}", t.ug)).unwrap();
+        std::fs::write(d.join("d.po"), format!("{}", t.po)).unwrap();
+    }
+}
+
 fn rename_var(f: fol::Formula, from: &str, to: &str) -> fol::Formula {
     f.substitute(fol::Variable { name: from.into(), sort: fol::Sort::General }, fol::GeneralTerm::Variable(to.into()))
 }
